@@ -1290,6 +1290,8 @@ package vm
 //@   ensures [ctx]      callContext.stack == old(callContext.stack) && callContext.memory == old(callContext.memory) && callContext.contract == old(callContext.contract)
 //@   ensures [table]    interpreter.jumpTable == old(interpreter.jumpTable) && samecomp("vm.operation")
 //@   ensures [mem]      callContext.memory != nil ==> uint64(len(callContext.memory.store)) <= 137438953440
+//@   # stack-depth errors are the interpreter's own: an entry does not fabricate them
+//@   ensures [nostackerr] !istype(result1, *ErrStackOverflow) && !istype(result1, *ErrStackUnderflow)
 
 //@ func operation.dynamicGas
 //@   option trusted
@@ -1341,18 +1343,23 @@ package vm
 // and no CALL with value is executed while the flag is set; every entry is called with the stack depth its
 // table entry demands; gas only goes down between the charges of one step.
 //@ func EVMInterpreter.Run
-//@   property C11 C12
+//@   property C11 C12 C10
 //@   requires in != nil && in.evm != nil && contract != nil
 //@   # consistency of the jump table built by newInstructionSet: CALL (0xf1) pops 7 items, and an entry with a
 //@   # memory-size function also has a dynamic gas function (which charges for and bounds the expansion)
 //@   requires [table] in.jumpTable[241] != nil ==> in.jumpTable[241].minStack >= 3
 //@   requires [table2] forall o int :: 0 <= o && o < 256 && in.jumpTable[o] != nil && in.jumpTable[o].memorySize != nil ==> in.jumpTable[o].dynamicGas != nil
 //@   requires [table3] forall o int :: 0 <= o && o < 256 && o != 241 && in.jumpTable[241] != nil ==> in.jumpTable[o] != in.jumpTable[241]
+//@   requires [errs!init] !istype(ErrWriteProtection, *ErrStackOverflow) && !istype(ErrOutOfGas, *ErrStackOverflow) && !istype(ErrGasUintOverflow, *ErrStackOverflow) && !istype(ErrExecutionReverted, *ErrStackOverflow) && !istype(ErrWriteProtection, *ErrStackUnderflow) && !istype(ErrOutOfGas, *ErrStackUnderflow) && !istype(ErrGasUintOverflow, *ErrStackUnderflow) && !istype(ErrExecutionReverted, *ErrStackUnderflow)
 //@   loop 0: invariant in.evm == old(in.evm) && in.evm.depth == old(in.evm.depth) + 1 && in.readOnly == (old(in.readOnly) || readOnly)
 //@   loop 0: invariant callContext.stack == stack && callContext.memory == mem && callContext.contract == contract
 //@   loop 0: invariant in.jumpTable == old(in.jumpTable) && samecomp("vm.operation")
 //@   ensures [depth]    in.evm == old(in.evm) && in.evm.depth == old(in.evm.depth)
 //@   ensures [readonly] in.readOnly == old(in.readOnly)
+//@   # a frame is aborted for its stack depth only when the depth really is outside what the entry allows: an
+//@   # operation that leaves exactly 1024 items is legal (C10: valid programs run)
+//@   ensures [overflow]  istype(result2, *ErrStackOverflow) ==> unbox(result2, *ErrStackOverflow).stackLen > unbox(result2, *ErrStackOverflow).limit
+//@   ensures [underflow] istype(result2, *ErrStackUnderflow) ==> unbox(result2, *ErrStackUnderflow).stackLen < unbox(result2, *ErrStackUnderflow).required
 
 // ---------------------------------------------------------------------------------------------
 // State-writing opcodes and the `writes` flags of the jump table (C12). An entry that may change the world
